@@ -20,9 +20,13 @@ Section Valid.
   Notation specM := (finalize_input_spec try_input).
 
   Definition istepT (st : psbt) (i : nat) (a a' : pinput) : Prop :=
-    finals_of a' = finals_of a \/
-    (is_final a = false /\ exists st1 m s w,
-        sreach st st1 /\ try_input st1 i m = TOk s w /\ finals_of a' = (nz s, nz w)).
+    utxos_of a' = utxos_of a /\
+    (finals_of a' = finals_of a \/
+     (is_final a = false /\ get_utxo a <> None /\ exists st1 m s w,
+        sreach st st1 /\ try_input st1 i m = TOk s w /\ finals_of a' = (nz s, nz w))).
+
+  Lemma get_utxo_utxos a b : utxos_of a = utxos_of b -> get_utxo a = get_utxo b.
+  Proof. unfold utxos_of, get_utxo. intros H; inversion H. now rewrite H1, H2. Qed.
 
   Definition sstepT (st st' : psbt) : Prop :=
     sreach st st' /\
@@ -30,19 +34,21 @@ Section Valid.
                  exists a, nth_error (p_inputs st) i = Some a /\ istepT st i a a'.
 
   Lemma sstepT_refl st : sstepT st st.
-  Proof. split. apply sreach_refl. intros i a H. exists a. split; auto. left; auto. Qed.
+  Proof. split. apply sreach_refl. intros i a H. exists a. split; auto. split; auto. Qed.
 
   Lemma sstepT_trans a b c : sstepT a b -> sstepT b c -> sstepT a c.
   Proof.
     intros [R1 P1] [R2 P2]. split. eapply sreach_trans; eauto.
-    intros i z Hz. destruct (P2 i z Hz) as (y & Hy & S2). destruct (P1 i y Hy) as (x & Hx & S1).
-    exists x. split; auto. destruct S2 as [E2|(F2 & st1 & m & s & w & Rb & T & E2)].
-    - destruct S1 as [E1|(F1 & st1 & m & s & w & Ra & T & E1)].
+    intros i z Hz. destruct (P2 i z Hz) as (y & Hy & U2 & S2). destruct (P1 i y Hy) as (x & Hx & U1 & S1).
+    exists x. split; auto. split; [congruence|].
+    destruct S2 as [E2|(F2 & G2 & st1 & m & s & w & Rb & T & E2)].
+    - destruct S1 as [E1|(F1 & G1 & st1 & m & s & w & Ra & T & E1)].
       + left. congruence.
-      + right. split; auto. exists st1, m, s, w. split; auto. split; auto.
+      + right. split; auto. split; auto. exists st1, m, s, w. split; auto. split; auto.
         rewrite E2. exact E1.
-    - right. split.
+    - right. split; [|split].
       + destruct S1 as [E1|(F1 & _)]; auto. rewrite <- (is_final_finals _ _ E1). exact F2.
+      + rewrite <- (get_utxo_utxos _ _ U1). exact G2.
       + exists st1, m, s, w. split; [eapply sreach_trans; eauto|]. split; auto.
   Qed.
 
@@ -53,16 +59,16 @@ Section Valid.
     intros Hn Hr Hs. split. eapply sreach_set; eauto.
     intros k a' Hk. simpl in Hk. destruct (Nat.eq_dec k i) as [->|Hne].
     - rewrite (nth_set_nth_eq _ _ _ _ Hn) in Hk. inversion Hk; subst. eauto.
-    - rewrite nth_set_nth_neq in Hk by auto. exists a'. split; auto. left; auto.
+    - rewrite nth_set_nth_neq in Hk by auto. exists a'. split; auto. split; auto.
   Qed.
 
   Lemma finalize_input_sstepT st i m st' : finalize_inputM st i m = FOk st' -> sstepT st st'.
   Proof.
     intros H. pose proof (specM st i m) as S. rewrite H in S.
-    destruct S as (a & Hn & [[_ ->]|(Hf & s & w & Ht & ->)]).
+    destruct S as (a & Hn & [[_ ->]|(Hf & s & w & Ht & ->)] & Hu).
     - apply sstepT_refl.
     - eapply sstepT_set; eauto using ireach_cleared.
-      right. split; auto. exists st, m, s, w. split; [apply sreach_refl|]. split; auto.
+      split; [reflexivity|]. right. split; auto. split; auto. exists st, m, s, w. split; [apply sreach_refl|]. split; auto.
   Qed.
 
   Lemma on_input_sstepT st i f :
@@ -70,7 +76,7 @@ Section Valid.
     sstepT st (fst (on_input st i f)).
   Proof.
     intros Hf. unfold on_input. destruct (nth_error (p_inputs st) i) as [a|] eqn:Hn; simpl.
-    - destruct (Hf a). eapply sstepT_set; eauto. apply ireach_frame; auto. left; auto.
+    - destruct (Hf a). eapply sstepT_set; eauto. apply ireach_frame; auto. split; auto.
     - apply sstepT_refl.
   Qed.
 
@@ -109,7 +115,7 @@ Section Valid.
       destruct (expected_spk a (d_segwit (desc_info d))); [|apply sstepT_refl].
       destruct (negb (n =? d_spk (desc_info d))%N); [apply sstepT_refl|]. simpl.
       destruct (apply_update_frame a (desc_info d)).
-      eapply sstepT_set; eauto. apply ireach_frame; auto. left; auto.
+      eapply sstepT_set; eauto. apply ireach_frame; auto. split; auto.
     - unfold finalize_mut.
       pose proof (fin_mut_loop_sstepT mall (seq 0 (length (p_inputs st))) st []) as H.
       destruct (fin_mut_loop try_input mall (seq 0 (length (p_inputs st))) st []) as [[st' es] p].
@@ -140,11 +146,27 @@ Section Valid.
           try_input st1 i m = TOk s w /\ i_fsig a' = nz s /\ i_fwit a' = nz w)).
   Proof.
     intros ops st i a' Hn Hf. destruct (run_sstepT ops st) as [_ P].
-    destruct (P i a' Hn) as (a & Ha & [E|(Fa & st1 & m & s & w & R & T & E)]); exists a; split; auto.
+    destruct (P i a' Hn) as (a & Ha & _ & [E|(Fa & _ & st1 & m & s & w & R & T & E)]); exists a; split; auto.
     - left. split; auto. rewrite <- (is_final_finals _ _ E). exact Hf.
     - right. split; auto. exists st1, m, s, w. pose proof (sreach_utxos _ _ R) as U.
       destruct R as (Tx & _ & F). inversion E.
       split; [exact Tx|]. split; [exact U|]. split; [exact T|]. split; reflexivity.
+  Qed.
+
+  (* ================= an input whose spent output cannot be found is never finalized ========
+     get_utxo a = None covers: no utxo field; a non_witness_utxo that is not the transaction the
+     outpoint names; an outpoint beyond its outputs - whatever a witness_utxo next to it says.
+     Over ANY history such an input stays non-final (and its utxo fields stay as they are). *)
+  Theorem bad_utxo_never_final : forall ops st i a,
+    nth_error (p_inputs st) i = Some a -> is_final a = false -> get_utxo a = None ->
+    exists a', nth_error (p_inputs (runM ops st)) i = Some a' /\ is_final a' = false /\ get_utxo a' = None.
+  Proof.
+    intros ops st i a Hn Hf Hu. destruct (run_sstepT ops st) as [R P].
+    destruct R as (_ & _ & F). destruct (Forall2_nth _ _ _ _ _ F Hn) as (a' & Hn' & _).
+    exists a'. split; auto. destruct (P i a' Hn') as (a0 & Ha0 & U & S).
+    assert (a0 = a) by congruence. subst a0. split.
+    - destruct S as [E|(_ & G & _)]; [|congruence]. rewrite (is_final_finals _ _ E). exact Hf.
+    - rewrite (get_utxo_utxos _ _ U). exact Hu.
   Qed.
 
   (* ---- with the soundness of try_input *)
